@@ -230,7 +230,7 @@ class Check:
         rd = os.path.join(VERIF, "replays")
         if clear_replays and os.path.isdir(rd):
             for fn in os.listdir(rd):
-                if fn.startswith(prop + "-"):
+                if fn.startswith("%s-%d-" % (prop, seed)):      # this seed's only: runs with other seeds may be going on
                     os.unlink(os.path.join(rd, fn))
 
     # -- coverage bookkeeping
